@@ -18,7 +18,7 @@ PROPERTY = 'C10'
 
 RULE = ('Generated call histories (the whole history is one shrinkable value): an online monitor (discrete online, discrete online after '
         'pastify, dense online; with or without sub-specifications/constants via the decompositions of C09) receives a sequence of '
-        'update(sample or batch) and reset() operations; reset() may be the first operation. A shadow monitor is constructed fresh '
+        'update(sample or batch) and reset() operations; reset() may be the first operation (also before pastify(): parse, reset, pastify, then the history). A shadow monitor is constructed fresh '
         '(parse, pastify) at every reset and fed the same post-reset inputs. Oracle: after every update the real output equals the '
         'shadow output, and (discrete) sampling_violation_counter is equal after every operation; the first time stamp after a reset '
         'is arbitrary (a gap that would be counted if previous_time survived). A quarter of the histories contain an operation that raises on some data (division by a signal reaching 0, root of a negative sample): '
@@ -102,6 +102,7 @@ def histories(draw, tier, kind):
                 ops.append(['reset'])
                 nres += 1
     c['ops'] = ops
+    c['late_pastify'] = kind == 'dt_on_past' and draw(st.integers(0, 3)) == 0
     if unitconf:
         c['sampling'] = [1, 'ms', draw(st.sampled_from([0.1, 0.25]))]
     elif kind.startswith('dt') and draw(st.booleans()):
@@ -157,7 +158,20 @@ def check(case):
             spec.set_sampling_period(*cfg['sampling'])
         return spec
     try:
-        real = Runner(case, fresh())
+        if case.get('late_pastify') and kind == 'dt_on_past':
+            # the monitor under test is reset before it is pastified: parse(); reset(); pastify(); then the history
+            spec0 = build_modular(dict(case, kind='dt_on', unit=cfg['unit']))
+            if cfg['sampling']:
+                spec0.set_sampling_period(*cfg['sampling'])
+            labels.append('reset-before-pastify')
+            try:
+                spec0.reset()
+            except Exception:  # noqa
+                pass          # a specification with future operators may be rejected here (C17); pastify() follows
+            spec0.pastify()
+            real = Runner(case, spec0)
+        else:
+            real = Runner(case, fresh())
         shadow = Runner(case, fresh())
     except Exception as e:  # noqa
         return DISCARD('build-raises(C14/C17):' + type(e).__name__, labels)
@@ -238,7 +252,7 @@ def check(case):
                 r_out = real.update(op, tf)
             except Exception as e:  # noqa
                 o = exc_outcome(e)
-                return FAIL('update-after-reset-raises:%s:%s' % (kind, o[1]) if resets else 'HARNESS:update-raises',
+                return FAIL('update-after-reset-raises:%s:%s' % (kind, o[1]) if (resets or case.get('late_pastify')) else 'HARNESS:update-raises',
                             desc + '\noperation %d: update raised %s: %s at %s (the fresh shadow monitor returned %r)' % (idx, o[1], o[3], o[4], s_out), labels)
             updates_since_reset += 1
             if resets and updates_since_reset == 2 and updates_before_reset >= 2:
@@ -249,7 +263,7 @@ def check(case):
             else:
                 ok = r_out == s_out
             if not ok:
-                return FAIL('differs-after-reset:' + kind if resets else 'HARNESS:differs-without-reset',
+                return FAIL('differs-after-reset:' + kind if (resets or case.get('late_pastify')) else 'HARNESS:differs-without-reset',
                             desc + '\noperation %d (update): monitor returned %r, fresh monitor %r\noutputs so far: %s' % (idx, r_out, s_out, log), labels)
         if kind.startswith('dt'):
             rc, sc = real.spec.sampling_violation_counter, shadow.spec.sampling_violation_counter
